@@ -139,6 +139,13 @@ def r3(ctx, R):
     spawned = [n for n, c in nm.calls_pred(lambda d: d.endswith("_schedule") or d.endswith("create_task") or d.endswith("ensure_future") or d.endswith("call_soon"))]
     ok = bool(ns) and all(n.awaits for n in ns) and not spawned and nm.cfg.all_paths_pass(nm.cfg.entry.id, [nm.cfg.exit.id], [n.id for n in ns], NONEXC)
     ctx.check(ok, R, "_notify_message_received:awaits-the-subscribers", nm.module, nm.node, "the notification of one frame is awaited to completion (not scheduled in the background): deliveries keep the order of the byte stream", "the notification is handed to a background task" if spawned else "not awaited on every path")
+    # ... and to completion means without a deadline: a timer around the delivery (asyncio.timeout / wait_for) cuts a frame off
+    # in the middle of its subscribers - the entities not yet reached never see it - and its TimeoutError resets a healthy link
+    timers = []
+    for q_ in ("_read", "_notify_message_received", "_notify_subscribers"):
+        fq = sock_fn(ctx, q_)
+        timers += [(q_, c_) for _, c_ in fq.calls_pred(lambda d_: d_ in ("asyncio.wait_for", "asyncio.timeout", "asyncio.timeout_at", "asyncio.wait"))]
+    ctx.check(not timers, R, "delivery:no-deadline-on-subscribers", nm.module, (timers[0][1] if timers else nm.node), "neither the read loop nor the notification chain puts the subscribers under a timer", f"{timers[0][0]}: `{norm_text(timers[0][1])[:60]}`" if timers else "")
     f = sock_fn(ctx, "_read")
     m, g = f.module, f.cfg
     reads = [n for n, c in f.calls("self._read_one_message")]
@@ -147,6 +154,17 @@ def r3(ctx, R):
     ok = len(nots) == 1 and len(reads) == 1 and g.dominates(reads[0].id, nots[0].id) and nots[0].awaits
     ctx.check(ok, R, "_read:one-delivery-per-read", m, f.node, "one awaited _notify_message_received per successful read", f"{len(reads)} reads, {len(nots)} notifications")
     if ok:
+        # every successful read is delivered: between a truthy result and the next read there is no way round the notification
+        # (no frame is swallowed as a 'duplicate', postponed while connecting, or filtered by any state of the socket)
+        var0 = reads[0].ast.targets[0].id if isinstance(reads[0].ast, ast.Assign) and isinstance(reads[0].ast.targets[0], ast.Name) else None
+        truthy = [f.branch(t, lab) for t in f.tests(lambda e: True) for lab in ("true", "false")
+                  if var0 is not None and ((lab == "true" and dotted(t.ast) == var0) or (lab == "true" and isinstance(t.ast, ast.Compare) and dotted(t.ast.left) == var0 and isinstance(t.ast.ops[0], ast.IsNot) and isinstance(t.ast.comparators[0], ast.Constant) and t.ast.comparators[0].value is None))]
+        truthy = [b for b in truthy if f.cfg.dominates(b.id, nots[0].id) or f.cfg.exists_path(b.id, nots[0].id, labels=NONEXC)]
+        if truthy:
+            skip = any(f.cfg.exists_path(b.id, reads[0].id, avoid={nots[0].id}, labels=NONEXC) or f.cfg.exists_path(b.id, f.cfg.exit.id, avoid={nots[0].id}, labels=NONEXC) for b in truthy)
+            ctx.check(not skip, R, "_read:every-successful-read-is-delivered", m, nots[0].ast, "from a truthy read result every normal path reaches the notification before the next read or the end of the task", "a path from the successful read goes on to the next read (or leaves) without notifying the subscribers: that frame is lost")
+        else:
+            ctx.violation(R, "_read:every-successful-read-is-delivered", m, nots[0].ast, "the notification follows the truthiness test of the read result", "no truthiness test of the read result leads to the notification")
         # between two reads at most one notification: no path from the notify node back to itself avoiding the read node
         again = g.exists_path(nots[0].id, nots[0].id, avoid=[reads[0].id])
         ctx.check(not again, R, "_read:no-duplicate-delivery", m, nots[0].ast, "a frame is delivered once (the next notification requires another read)", "the notification can repeat without a new read")
